@@ -258,6 +258,8 @@ def install():
                 f(self, 'begin')
         o_ainit(self, name, value, is_transitory)
         if bus is not None and not PROBING and not is_transitory:
+            global LAST_NAME_GIVEN
+            LAST_NAME_GIVEN = name
             for f in bus.table['asset_created']:
                 f(self, 'end')
     Asset.__init__ = a_init
@@ -274,6 +276,9 @@ def install():
             f(self, env)
     Asset.initialize = a_initialize
     enable_call_budget()
+
+
+LAST_NAME_GIVEN = None      # the name argument of the Asset constructor call that just finished
 
 
 class CallBudgetExceeded(Exception):
